@@ -168,8 +168,33 @@ def A(res, act="read", deny=False):
     return {"Resource": res, "Action": act, "Deny": deny}
 
 
-def OP(op, client="", acl=None):
-    return {"op": op, "client": client, "acl": acl or []}
+def OP(op, client="", acl=None, sp=""):
+    return {"op": op, "client": client, "acl": acl or [], "sp": sp}
+
+
+# client ids with characters callers percent-encode, (id, spellings of the id in a URL path segment): eager escapes
+# (encodeURIComponent style, lower-case hex), the canonical one, and the pinned handlers' own quirk (+ read as space)
+SPELLED = [("bob@clients", ["bob%40clients", "bob@clients", "%62ob%40clients"]), ("urn:client:7", ["urn%3Aclient%3A7", "urn:client%3a7"]),
+           ("team/reporting", ["team%2Freporting", "team%2freporting"]), ("a b", ["a%20b", "a+b"]), ("a+b", ["a%2Bb"]),
+           ("x=1&y", ["x%3D1%26y", "x=1&y"]), ("plain-id_1.~", ["plain-id_1.~", "%70lain-id_1.~"])]
+
+
+def spelled_cases(rng, tier):
+    """grant through one spelling, revoke through the same or another spelling of the same id, then ask as that client"""
+    out = []
+    acl = [A("/datasets/*", "write")]
+    reqs = (("GET", "/datasets/secret"), ("POST", "/datasets/secret"), ("GET", "/jobs"))
+    for cid, sps in SPELLED:
+        tok = T(sub=cid)
+        pairs = [(a, b) for a in sps for b in sps]
+        if tier == "quick":
+            pairs = [(sps[0], sps[0])] + ([rng.choice(pairs)] if len(pairs) > 1 else [])
+        for a, b in pairs:
+            out.append(persistcase([OP("register", cid), OP("setacl", cid, acl, sp=a), OP("delacl", cid, sp=b)], tok, reqs))
+        out.append(persistcase([OP("register", cid), OP("setacl", cid, acl, sp=sps[0])], tok, reqs))
+        out.append(persistcase([OP("setacl", cid, acl, sp=sps[-1]), OP("register", "other"), OP("setacl", "other", [A("/*", "read")]),
+                                OP("delacl", cid, sp=sps[0]), OP("restart"), OP("setacl", cid, [A("/jobs", "read")], sp=sps[0])], tok, reqs))
+    return out
 
 
 # --------------------------------------------------------------------------- adversarial ids
@@ -282,6 +307,11 @@ def witness_cases():
         reqcase([A("/datasets/sdb.*", "write")], v, REGEX_BATTERY),
         listcase([A("/datasets", "read"), A("/datasets/sdb.*", "read")]),
         reqcase([A("/datasets/*/changes*", "read")], v, REGEX_BATTERY),
+        # revocation through the escaped spelling of an id (encodeURIComponent style)
+        persistcase([OP("register", "bob@clients"), OP("setacl", "bob@clients", [A("/datasets/*", "write")], sp="bob%40clients"),
+                     OP("delacl", "bob@clients", sp="bob%40clients")], T(sub="bob@clients")),
+        persistcase([OP("register", "team/reporting"), OP("setacl", "team/reporting", [A("/datasets/*", "read")], sp="team%2Freporting"),
+                     OP("delacl", "team/reporting", sp="team%2Freporting")], T(sub="team/reporting")),
         # route table
         reqcase([], v, [], sweep=True),
         reqcase([], TOKENS["nohdr"], [], sweep=True),
@@ -358,6 +388,7 @@ def gen(rng, tier):
         out += adversarial_cases(rng, tier)
         out += regex_cases(rng, tier)
         out += seq_cases(tier)
+        out += spelled_cases(rng, tier)
         for _ in range(20):
             out.append(reqcase(rand_acl(rng, rng.range(1, 3)), rng.choice([v, TOKENS["oauth"], TOKENS["noroles"], TOKENS["Admin"]]), BATTERY,
                                direct=rng.chance(1, 2)))
@@ -386,6 +417,7 @@ def gen(rng, tier):
     out += adversarial_cases(rng, tier)
     out += regex_cases(rng, tier)
     out += seq_cases(tier)
+    out += spelled_cases(rng, tier)
     for t in TOKENS.values():
         out.append(reqcase([A("/*", "write")], t, BATTERY, direct=True))
     E2 = entries(EXTRA_RES)
@@ -484,8 +516,20 @@ def snap_term(s):
         vlib.coq_list(["(%s, %s)" % (cs(k), acl_term(v)) for k, v in sorted(s["acls"].items())]))
 
 
+def gets_term(o):
+    out = []
+    for g in (o.get("gets") or []):
+        if g.get("st") != 200:
+            out.append("(%s, Some [{| ac_resource := %s; ac_action := %s; ac_deny := true |}])" % (cs(g["sp"]), cs("GET failed"), cs(str(g.get("st")))))
+        else:
+            out.append("(%s, %s)" % (cs(g["sp"]), "None" if g.get("null") else "Some %s" % acl_term(g.get("acl"))))
+    return vlib.coq_list(out)
+
+
 def op_term(o):
     c = cs(o.get("client", ""))
+    if o.get("sp") and o["op"] in ("setacl", "delacl"):
+        c = "(rid %s)" % cs(o["sp"])
     return {"register": "OpRegister %s" % c, "unregister": "OpUnregister %s" % c, "delacl": "OpDelAcl %s" % c, "restart": "OpRestart",
             "setacl": "OpSetAcl %s %s" % (c, acl_term(o.get("acl")))}[o["op"]]
 
@@ -519,14 +563,14 @@ def term(c, o):
     cfg = '{| cfg_oauth := %s; cfg_aud := [%s; %s]; cfg_iss := [%s; %s] |}' % (
         vlib.coq_bool(o.get("oauth", True)), cs(OAUD), cs(NODE), cs(OISS), cs(NODE))
     return ("{| c_kind := %d%%N; c_cfg := %s; c_acl := %s; c_auth := %s; c_tok := %s; c_facts := %s; c_reqs := %s; c_sweep := %s; "
-            "c_routes := %s; c_ops := %s; o_before := %s; o_after := %s; o_all := %s; o_listed := %s; o_list := %s; c_exp := %s; c_nbf := %s; c_seq := %s |}" % (
+            "c_routes := %s; c_ops := %s; o_before := %s; o_after := %s; o_all := %s; o_listed := %s; o_list := %s; c_exp := %s; c_nbf := %s; o_gets := %s; c_seq := %s |}" % (
                 kind, cfg, acl, cs(auth_of(c["token"])), cs(TOK), facts_term(c["token"]), reqs,
                 vlib.coq_bool(bool(c.get("sweep")) and o.get("outcome") == "ok"),
                 vlib.coq_list(["(%s, %s)" % (cs(r[0]), cs(r[1])) for r in (o.get("routes") or [])]),
                 vlib.coq_list([op_term(x) for x in (c.get("ops") or [])]), snap_term(o.get("before")), snap_term(o.get("after")),
                 vlib.coq_list([cs(x) for x in (o.get("all") or [])]), vlib.coq_list([cs(x) for x in (o.get("listed") or [])]), olist,
                 "Some 5%N" if (c["kind"] == "seq" and c.get("bound") != "nbf") else "None",
-                "Some 5%N" if (c["kind"] == "seq" and c.get("bound") == "nbf") else "None", seq))
+                "Some 5%N" if (c["kind"] == "seq" and c.get("bound") == "nbf") else "None", gets_term(o), seq))
 
 
 def predict_text(c, o):
